@@ -1,15 +1,21 @@
 (* C14 -- Schema compliance checking accepts released schemas and flags seeded faults.
    Property theorems only; each closed with [exact] and followed by Print Assumptions.
 
-   Reading guide.  [check_compliance E warn S] models hed.schema.from_string(xml) followed by
+   Reading guide.  [check_compliance fx E warn S] models hed.schema.from_string(xml) followed by
    schema.check_compliance(check_for_warnings=warn) for the raw schema S (what the XML says) in the
    environment E (known released versions, library id ranges, previous-version schemas, plurals);
-   [load E S = Ok L] is the loaded schema and [check_loaded E warn L] the check proper.  The seeded-
-   fault theorems quantify over EVERY loaded schema L, every section and every entry e the check
-   visits: "Seed k pos S S'" of the statement is the special case L = load S', e = the entry at pos. *)
+   [load E S = Ok L] is the loaded schema and [check_loaded fx E warn L] the check proper.
+   [fx] selects the repairs: [fixed_all] is the code as it now is (fix: commits for C14-F1 and C14-F2),
+   [fixed_none] the code before them.  The seeded-fault theorems quantify over EVERY loaded schema L,
+   every section and every entry e the check visits: "Seed k pos S S'" of the statement is the special
+   case L = load S', e = the entry at pos. *)
 From Coq Require Import List NArith ZArith String.
 From HV Require Import Base.Res Base.Str Base.C14Base Gen.ComplianceTables Model.Compliance
-     Proofs.ComplianceProofs Proofs.ComplianceExamples.
+     Proofs.ComplianceProofs Proofs.C14ExCommon Gen.C14_Env
+     Proofs.C14Ex_8_0_0 Proofs.C14Ex_8_1_0 Proofs.C14Ex_8_2_0 Proofs.C14Ex_8_3_0
+     Proofs.C14Ex_score_1_1_0 Proofs.C14Ex_score_2_0_0
+     Proofs.C14Ex_testlib_2_0_0 Proofs.C14Ex_testlib_2_1_0 Proofs.C14Ex_testlib_3_0_0
+     Proofs.C14Ex_Seeded830 Proofs.C14Ex_SeededScore.
 From HV Require Gen.Schema_8_0_0_c14 Gen.Schema_8_1_0_c14 Gen.Schema_8_2_0_c14 Gen.Schema_8_3_0_c14
      Gen.Schema_score_1_1_0_c14 Gen.Schema_score_2_0_0_c14 Gen.Schema_testlib_2_0_0_c14
      Gen.Schema_testlib_2_1_0_c14 Gen.Schema_testlib_3_0_0_c14.
@@ -37,21 +43,21 @@ Definition spec_code (f : fault) : str :=
 
 (* ================= clause 3: with warnings off only errors are returned ================= *)
 
-(* For every schema and environment: the result with warnings off is exactly the error-severity
-   part of the result with warnings on (same exception behaviour). *)
-Theorem C14_warnings_off_only_errors : forall (E : env) (S : rschema),
-  check_compliance E false S = errors_of (check_compliance E true S).
+(* For every schema and environment (before and after the repairs): the result with warnings off is
+   exactly the error-severity part of the result with warnings on (same exception behaviour). *)
+Theorem C14_warnings_off_only_errors : forall (fx : fixes) (E : env) (S : rschema),
+  check_compliance fx E false S = errors_of (check_compliance fx E true S).
 Proof. exact check_compliance_off. Qed.
 Print Assumptions C14_warnings_off_only_errors.
 
-Theorem C14_warnings_off_all_errors : forall (E : env) (S : rschema) (l : list issue),
-  check_compliance E false S = Ok l -> Forall (fun i => is_error i = true) l.
+Theorem C14_warnings_off_all_errors : forall (fx : fixes) (E : env) (S : rschema) (l : list issue),
+  check_compliance fx E false S = Ok l -> Forall (fun i => is_error i = true) l.
 Proof. exact check_compliance_off_all_errors. Qed.
 Print Assumptions C14_warnings_off_all_errors.
 
 (* Every finding of an attribute validator is a warning (the downgrade in _run_validators). *)
 Theorem C14_attribute_findings_are_warnings :
-  forall E I L e a vs l i, run_validators E I true L e a vs = Ok l -> In i l -> i_sev i = SevWarning.
+  forall fx E I L e a vs l i, run_validators fx E I true L e a vs = Ok l -> In i l -> i_sev i = SevWarning.
 Proof. exact attribute_findings_are_warnings. Qed.
 Print Assumptions C14_attribute_findings_are_warnings.
 
@@ -107,58 +113,31 @@ Proof. exact unit_exists_spec. Qed.
 Print Assumptions C14_rule_unit_exists.
 
 (* deprecatedFrom: an unknown version fires, a known and strictly older one is silent *)
-Theorem C14_rule_deprecated_unknown : forall E L e a s ks,
+Theorem C14_rule_deprecated_unknown : forall fx E L e a s ks,
   dict_get a (le_attrs e) = Some (VStr s) ->
-  ~ In s (versions_for E (entry_library L e)) ->
-  tag_is_deprecated_check E L e a = Ok ks -> In K_SCHEMA_DEPRECATED_INVALID ks.
+  ~ In s (versions_for E (entry_library fx L e)) ->
+  tag_is_deprecated_check fx E L e a = Ok ks -> In K_SCHEMA_DEPRECATED_INVALID ks.
 Proof. exact deprecated_unknown_fires. Qed.
 Print Assumptions C14_rule_deprecated_unknown.
 
-Theorem C14_rule_deprecated_not_older : forall E L e a s lv v1 v2 ks,
+Theorem C14_rule_deprecated_not_older : forall fx E L e a s lv v1 v2 ks,
   dict_get a (le_attrs e) = Some (VStr s) ->
-  schema_version_for_library L (entry_library L e) = Some lv -> lv <> [] ->
+  schema_version_for_library L (entry_library fx L e) = Some lv -> lv <> [] ->
   parse_version lv = Ok v1 -> parse_version s = Ok v2 -> version_leb v1 v2 = true ->
-  tag_is_deprecated_check E L e a = Ok ks -> In K_SCHEMA_DEPRECATED_INVALID ks.
+  tag_is_deprecated_check fx E L e a = Ok ks -> In K_SCHEMA_DEPRECATED_INVALID ks.
 Proof. exact deprecated_not_older_fires. Qed.
 Print Assumptions C14_rule_deprecated_not_older.
 
-Theorem C14_rule_deprecated_ok_silent : forall E L e a s lv v1 v2 ks,
+Theorem C14_rule_deprecated_ok_silent : forall fx E L e a s lv v1 v2 ks,
   dict_get a (le_attrs e) = Some (VStr s) ->
-  In s (versions_for E (entry_library L e)) ->
-  schema_version_for_library L (entry_library L e) = Some lv -> lv <> [] ->
+  In s (versions_for E (entry_library fx L e)) ->
+  schema_version_for_library L (entry_library fx L e) = Some lv -> lv <> [] ->
   parse_version lv = Ok v1 -> parse_version s = Ok v2 -> version_leb v1 v2 = false ->
-  tag_is_deprecated_check E L e a = Ok ks -> ~ In K_SCHEMA_DEPRECATED_INVALID ks.
+  tag_is_deprecated_check fx E L e a = Ok ks -> ~ In K_SCHEMA_DEPRECATED_INVALID ks.
 Proof. exact deprecated_ok_silent. Qed.
 Print Assumptions C14_rule_deprecated_ok_silent.
 
-(* ================= clause 2: a seeded fault is reported with the specification's code =================
-
-   FULL STATEMENT (kept visible):
-     seeded_fault_reported : Compliant S -> Seed k pos S S' ->
-                             In (spec_code k) (codes (check_compliance E true S')).
-   It is FALSE of the faithful model as stated, for two reasons that are genuine defects of the code
-   (C14_seeded_fault_reported_refuted_raises / _refuted_hed_id below).  What IS proved, for all
-   environments, all loaded schemas, all sections and all positions (entries): whenever the check does
-   not raise, the fault at the entry is reported with the specification's code.  The hypotheses spell
-   out "the fault is present at e"; for hedId the library of the entry must have an id range. *)
-
-Theorem C14_seeded_duplicate_node_partial : forall E warn L issues sec d name ents,
-  check_loaded E warn L = Ok issues ->
-  In (sec, d) (l_dups L) -> In (name, ents) d ->
-  (forall x y, In x ents -> In y ents -> snd x = snd y) ->      (* same origin: all library or all standard *)
-  In (spec_code F_duplicate_node) (codes (filter is_error issues)).
-Proof. exact seeded_duplicate. Qed.
-Print Assumptions C14_seeded_duplicate_node_partial.
-
-Theorem C14_seeded_undeclared_attribute_partial : forall E warn L issues sec e a,
-  check_loaded E warn L = Ok issues ->
-  In e (section_values L sec) -> In a (le_unknown e) ->
-  In (spec_code F_undeclared_attribute) (codes (filter is_error issues)).
-Proof. exact seeded_undeclared. Qed.
-Print Assumptions C14_seeded_undeclared_attribute_partial.
-
-(* unit class / value class / suggested or related tag that does not exist; which attributes carry
-   the existence rule is read from the translated tables: *)
+(* which rules run for which attribute: read from the translated old / 8.3 tables *)
 Theorem C14_item_rule_applies_old : forall L,
   l_is83 L = false ->
   In (V_item_exists_check SecTags) (get_validators L HedKey_SuggestedTag) /\
@@ -180,54 +159,6 @@ Theorem C14_item_rule_applies_new : forall L a ae pv tsec p,
 Proof. exact item_validator_new. Qed.
 Print Assumptions C14_item_rule_applies_new.
 
-Theorem C14_seeded_unknown_item_partial : forall E L issues sec e a s tsec item,
-  check_loaded E true L = Ok issues ->
-  In e (section_values L sec) ->
-  dict_get a (le_attrs e) = Some (VStr s) ->
-  In (V_item_exists_check tsec) (get_validators L a) ->
-  (tsec = SecTags \/ tsec = SecUnitClasses \/ tsec = SecValueClasses) ->
-  In item (split_comma s) -> item <> [] -> lookup L tsec item = None ->
-  In (spec_code F_unknown_tag) (codes issues).        (* = spec_code F_unknown_unit_class = F_unknown_value_class *)
-Proof. exact seeded_unknown_item. Qed.
-Print Assumptions C14_seeded_unknown_item_partial.
-
-Theorem C14_seeded_class_on_non_placeholder_partial : forall E L issues sec e a val,
-  check_loaded E true L = Ok issues ->
-  In e (section_values L sec) -> le_sec e = SecTags ->
-  dict_get a (le_attrs e) = Some val ->
-  a = HedKey_UnitClass \/ a = HedKey_ValueClass \/ a = HedKey_TakesValue ->
-  ends_with slash_hash (le_name e) = false ->
-  In (spec_code F_class_on_non_placeholder) (codes issues).
-Proof. exact seeded_class_on_non_placeholder. Qed.
-Print Assumptions C14_seeded_class_on_non_placeholder_partial.
-
-Theorem C14_seeded_deprecated_unknown_partial : forall E L issues sec e s,
-  check_loaded E true L = Ok issues ->
-  In e (section_values L sec) ->
-  dict_get HedKey_DeprecatedFrom (le_attrs e) = Some (VStr s) ->
-  ~ In s (versions_for E (entry_library L e)) ->
-  In (spec_code F_deprecated_from) (codes issues).
-Proof. exact seeded_deprecated_unknown. Qed.
-Print Assumptions C14_seeded_deprecated_unknown_partial.
-
-Theorem C14_seeded_deprecated_not_older_partial : forall E L issues sec e s lv v1 v2,
-  check_loaded E true L = Ok issues ->
-  In e (section_values L sec) ->
-  dict_get HedKey_DeprecatedFrom (le_attrs e) = Some (VStr s) ->
-  schema_version_for_library L (entry_library L e) = Some lv -> lv <> [] ->
-  parse_version lv = Ok v1 -> parse_version s = Ok v2 -> version_leb v1 v2 = true ->
-  In (spec_code F_deprecated_from) (codes issues).
-Proof. exact seeded_deprecated_not_older. Qed.
-Print Assumptions C14_seeded_deprecated_not_older_partial.
-
-Theorem C14_seeded_conversion_factor_partial : forall E L issues sec e val,
-  check_loaded E true L = Ok issues ->
-  In e (section_values L sec) ->
-  dict_get HedKey_ConversionFactor (le_attrs e) = Some val -> bad_conversion_factor val ->
-  In (spec_code F_conversion_factor) (codes issues).
-Proof. exact seeded_conversion_factor. Qed.
-Print Assumptions C14_seeded_conversion_factor_partial.
-
 Theorem C14_default_units_rule_applies : forall L,
   (l_is83 L = false -> In V_unit_exists (get_validators L HedKey_DefaultUnits)) /\
   (forall a ae pv, l_is83 L = true -> lookup L SecAttributes a = Some ae ->
@@ -235,114 +166,295 @@ Theorem C14_default_units_rule_applies : forall L,
 Proof. exact (fun L => conj (unit_validator_old L) (unit_validator_new L)). Qed.
 Print Assumptions C14_default_units_rule_applies.
 
-Theorem C14_seeded_default_units_partial : forall E L issues sec e a u,
-  check_loaded E true L = Ok issues ->
-  In e (section_values L sec) -> le_sec e = SecUnitClasses ->
-  dict_get a (le_attrs e) = Some (VStr u) ->
+(* ================= clause 2: a seeded fault is reported with the specification's code =================
+
+   THE CODE AS IT NOW IS (fixed_all).  The statement
+     seeded_fault_reported : Compliant S -> Seed k pos S S' -> In (spec_code k) (codes (check S'))
+   is proved without any "the check does not raise" hypothesis.  What is left of it is named by cause:
+
+     checkable E L :=  HedIDValidator.__init__ and the prerelease check succeed in E (header and cache
+                       versions are MAJOR.MINOR.PATCH, the previous versions can be loaded)
+                   /\  well_valued: every DECLARED attribute of every visited entry meets validators
+                       written for its entry class and value type ([applicable]: tag_is_placeholder_check
+                       on tags, unit_exists on unit classes, a string rather than value-less value for
+                       item_exists / allowedCharacter / unit_exists / hedId, readable versions for
+                       deprecatedFrom).
+
+   Since the repair, undeclared attributes are not looked at by [well_valued] at all (skip_attribute),
+   which is exactly what C14-F1 was about: seeding an undeclared attribute cannot make the check raise.
+   [skip_attribute fixed_all e a = false] in the other theorems says "a is declared for e's section"
+   (otherwise the fault present at e IS the undeclared attribute, theorem C14_seeded_undeclared_attribute). *)
+
+Theorem C14_check_does_not_raise : forall fx E L I pre,
+  id_validator_init E L = Ok I -> check_if_prerelease_version E true L = Ok pre ->
+  well_valued fx E I L -> exists issues, check_loaded fx E true L = Ok issues.
+Proof. exact check_loaded_total. Qed.
+Print Assumptions C14_check_does_not_raise.
+
+Theorem C14_rule_total_when_applicable : forall fx E I L v e a,
+  applicable fx E I L v e a -> exists ks, run_validator fx E I L v e a = Ok ks.
+Proof. exact applicable_total. Qed.
+Print Assumptions C14_rule_total_when_applicable.
+
+Theorem C14_seeded_duplicate_node : forall E L sec d name ents,
+  checkable E L -> In (sec, d) (l_dups L) -> In (name, ents) d ->
+  (forall x y, In x ents -> In y ents -> snd x = snd y) ->      (* same origin: all library or all standard *)
+  exists issues, check_loaded fixed_all E true L = Ok issues
+                 /\ In (spec_code F_duplicate_node) (codes (filter is_error issues)).
+Proof. exact seeded_duplicate_full. Qed.
+Print Assumptions C14_seeded_duplicate_node.
+
+Theorem C14_seeded_undeclared_attribute : forall E L sec e a,
+  checkable E L -> In e (section_values L sec) -> In a (le_unknown e) ->
+  exists issues, check_loaded fixed_all E true L = Ok issues
+                 /\ In (spec_code F_undeclared_attribute) (codes (filter is_error issues)).
+Proof. exact seeded_undeclared_full. Qed.
+Print Assumptions C14_seeded_undeclared_attribute.
+
+Theorem C14_seeded_unknown_item : forall E L sec e a s tsec item,
+  checkable E L -> In e (section_values L sec) ->
+  dict_get a (le_attrs e) = Some (VStr s) -> skip_attribute fixed_all e a = false ->
+  In (V_item_exists_check tsec) (get_validators L a) ->
+  (tsec = SecTags \/ tsec = SecUnitClasses \/ tsec = SecValueClasses) ->
+  In item (split_comma s) -> item <> [] -> lookup L tsec item = None ->
+  exists issues, check_loaded fixed_all E true L = Ok issues
+                 /\ In (spec_code F_unknown_tag) (codes issues).  (* = F_unknown_unit_class = F_unknown_value_class *)
+Proof. exact seeded_unknown_item_full. Qed.
+Print Assumptions C14_seeded_unknown_item.
+
+Theorem C14_seeded_class_on_non_placeholder : forall E L sec e a val,
+  checkable E L -> In e (section_values L sec) -> le_sec e = SecTags ->
+  dict_get a (le_attrs e) = Some val -> skip_attribute fixed_all e a = false ->
+  a = HedKey_UnitClass \/ a = HedKey_ValueClass \/ a = HedKey_TakesValue ->
+  ends_with slash_hash (le_name e) = false ->
+  exists issues, check_loaded fixed_all E true L = Ok issues
+                 /\ In (spec_code F_class_on_non_placeholder) (codes issues).
+Proof. exact seeded_class_on_non_placeholder_full. Qed.
+Print Assumptions C14_seeded_class_on_non_placeholder.
+
+Theorem C14_seeded_deprecated_unknown : forall E L sec e s,
+  checkable E L -> In e (section_values L sec) ->
+  dict_get HedKey_DeprecatedFrom (le_attrs e) = Some (VStr s) ->
+  skip_attribute fixed_all e HedKey_DeprecatedFrom = false ->
+  ~ In s (versions_for E (entry_library fixed_all L e)) ->
+  exists issues, check_loaded fixed_all E true L = Ok issues
+                 /\ In (spec_code F_deprecated_from) (codes issues).
+Proof. exact seeded_deprecated_unknown_full. Qed.
+Print Assumptions C14_seeded_deprecated_unknown.
+
+Theorem C14_seeded_deprecated_not_older : forall E L sec e s lv v1 v2,
+  checkable E L -> In e (section_values L sec) ->
+  dict_get HedKey_DeprecatedFrom (le_attrs e) = Some (VStr s) ->
+  skip_attribute fixed_all e HedKey_DeprecatedFrom = false ->
+  schema_version_for_library L (entry_library fixed_all L e) = Some lv -> lv <> [] ->
+  parse_version lv = Ok v1 -> parse_version s = Ok v2 -> version_leb v1 v2 = true ->
+  exists issues, check_loaded fixed_all E true L = Ok issues
+                 /\ In (spec_code F_deprecated_from) (codes issues).
+Proof. exact seeded_deprecated_not_older_full. Qed.
+Print Assumptions C14_seeded_deprecated_not_older.
+
+Theorem C14_seeded_conversion_factor : forall E L sec e val,
+  checkable E L -> In e (section_values L sec) ->
+  dict_get HedKey_ConversionFactor (le_attrs e) = Some val ->
+  skip_attribute fixed_all e HedKey_ConversionFactor = false -> bad_conversion_factor val ->
+  exists issues, check_loaded fixed_all E true L = Ok issues
+                 /\ In (spec_code F_conversion_factor) (codes issues).
+Proof. exact seeded_conversion_factor_full. Qed.
+Print Assumptions C14_seeded_conversion_factor.
+
+Theorem C14_seeded_default_units : forall E L sec e a u,
+  checkable E L -> In e (section_values L sec) -> le_sec e = SecUnitClasses ->
+  dict_get a (le_attrs e) = Some (VStr u) -> skip_attribute fixed_all e a = false ->
   In V_unit_exists (get_validators L a) ->
   u <> [] -> get_derivative_unit_entry L e u = None ->
-  In (spec_code F_default_units) (codes issues).
-Proof. exact seeded_default_units. Qed.
-Print Assumptions C14_seeded_default_units_partial.
+  exists issues, check_loaded fixed_all E true L = Ok issues
+                 /\ In (spec_code F_default_units) (codes issues).
+Proof. exact seeded_default_units_full. Qed.
+Print Assumptions C14_seeded_default_units.
 
-Theorem C14_seeded_allowed_character_partial : forall E L issues sec e s c,
-  check_loaded E true L = Ok issues ->
-  In e (section_values L sec) ->
+Theorem C14_seeded_allowed_character : forall E L sec e s c,
+  checkable E L -> In e (section_values L sec) ->
   dict_get HedKey_AllowedCharacter (le_attrs e) = Some (VStr s) ->
+  skip_attribute fixed_all e HedKey_AllowedCharacter = false ->
   In c (split_comma s) -> ~ In c character_type_names -> List.length c <> 1%nat ->
-  In (spec_code F_allowed_character) (codes issues).
-Proof. exact seeded_allowed_character. Qed.
-Print Assumptions C14_seeded_allowed_character_partial.
+  exists issues, check_loaded fixed_all E true L = Ok issues
+                 /\ In (spec_code F_allowed_character) (codes issues).
+Proof. exact seeded_allowed_character_full. Qed.
+Print Assumptions C14_seeded_allowed_character.
 
-Theorem C14_seeded_in_library_partial : forall E L issues sec e s,
-  check_loaded E true L = Ok issues ->
-  In e (section_values L sec) ->
+Theorem C14_seeded_in_library : forall E L sec e s,
+  checkable E L -> In e (section_values L sec) ->
   dict_get HedKey_InLibrary (le_attrs e) = Some (VStr s) ->
+  skip_attribute fixed_all e HedKey_InLibrary = false ->
   ~ In s (split_comma (l_library L)) ->
-  In (spec_code F_in_library) (codes issues).
-Proof. exact seeded_in_library. Qed.
-Print Assumptions C14_seeded_in_library_partial.
+  exists issues, check_loaded fixed_all E true L = Ok issues
+                 /\ In (spec_code F_in_library) (codes issues).
+Proof. exact seeded_in_library_full. Qed.
+Print Assumptions C14_seeded_in_library.
 
-Theorem C14_seeded_hed_id_range_partial : forall E L I issues sec e s nid k lo hi,
-  check_loaded E true L = Ok issues -> l_is83 L = true ->
+(* hedId out of range: ANY library entry -- nested under other library tags or not -- is judged by its
+   OWN inLibrary value k; k is a library of the header and library_data.json gives it a range. *)
+Theorem C14_seeded_hed_id_range : forall E L sec e s nid k lo hi,
+  checkable E L -> l_is83 L = true -> In e (section_values L sec) ->
+  dict_get HedKey_HedID (le_attrs e) = Some (VStr s) -> skip_attribute fixed_all e HedKey_HedID = false ->
+  parse_int (remove_prefix s hed_prefix) = Some nid ->
+  dict_get HedKey_InLibrary (le_attrs e) = Some (VStr k) ->
+  In k (map snd (zip_str (split_comma (l_version L)) (split_comma (l_library L)))) ->
+  dict_get k (env_ranges E) = Some (lo, hi) ->
+  (nid < lo \/ hi < nid)%Z ->
+  exists issues, check_loaded fixed_all E true L = Ok issues
+                 /\ In (spec_code F_hed_id) (codes issues).
+Proof. exact seeded_hed_id_range_full. Qed.
+Print Assumptions C14_seeded_hed_id_range.
+
+(* the validator knows the id range of every library named in the header *)
+Theorem C14_id_ranges_of_header_libraries : forall E L I k r,
+  id_validator_init E L = Ok I ->
+  In k (map snd (zip_str (split_comma (l_version L)) (split_comma (l_library L)))) ->
+  dict_get k (env_ranges E) = Some r -> dict_get k (id_data I) = Some r.
+Proof. exact id_data_of_init. Qed.
+Print Assumptions C14_id_ranges_of_header_libraries.
+
+(* entries of the standard part (no inLibrary; key "") and any other key: the range must be in id_data *)
+Theorem C14_seeded_hed_id_range_by_key : forall fx E L I issues sec e s nid k lo hi,
+  check_loaded fx E true L = Ok issues -> l_is83 L = true ->
   id_validator_init E L = Ok I ->
   In e (section_values L sec) ->
-  dict_get HedKey_HedID (le_attrs e) = Some (VStr s) ->
+  dict_get HedKey_HedID (le_attrs e) = Some (VStr s) -> skip_attribute fx e HedKey_HedID = false ->
   parse_int (remove_prefix s hed_prefix) = Some nid ->
-  tag_library_key e = Some k -> dict_get k (id_data I) = Some (lo, hi) ->   (* MISSING for nested library tags *)
+  tag_library_key fx e = Some k -> dict_get k (id_data I) = Some (lo, hi) ->
   (nid < lo \/ hi < nid)%Z ->
   In (spec_code F_hed_id) (codes issues).
 Proof. exact seeded_hed_id_range. Qed.
-Print Assumptions C14_seeded_hed_id_range_partial.
+Print Assumptions C14_seeded_hed_id_range_by_key.
 
-Theorem C14_seeded_hed_id_changed_partial : forall E L I issues sec e s nid k Lp oe os oid,
-  check_loaded E true L = Ok issues -> l_is83 L = true ->
-  id_validator_init E L = Ok I ->
-  In e (section_values L sec) ->
-  dict_get HedKey_HedID (le_attrs e) = Some (VStr s) ->
+(* THE RANGE RULE, edges included.  With no previous version of the entry's library to compare with, the
+   hedId number n is reported exactly when n < lo or hi < n: both bounds belong to the range, and the number
+   0 (HED_0000000) is an id like any other -- in particular it is out of every range with lo > 0. *)
+Theorem C14_rule_hed_id_range : forall fx I L e a s nid k lo hi ks,
+  dict_get a (le_attrs e) = Some (VStr s) ->
   parse_int (remove_prefix s hed_prefix) = Some nid ->
-  tag_library_key e = Some k -> dict_get k (id_prev I) = Some Lp ->
+  tag_library_key fx e = Some k -> dict_get k (id_data I) = Some (lo, hi) ->
+  dict_get k (id_prev I) = None ->
+  verify_tag_id fx I L e a = Ok ks ->
+  (In K_SCHEMA_HED_ID_INVALID ks <-> (nid < lo \/ hi < nid)%Z).
+Proof. exact verify_tag_id_range_iff. Qed.
+Print Assumptions C14_rule_hed_id_range.
+
+Theorem C14_rule_hed_id_zero : forall fx I L e a s k lo hi ks,
+  dict_get a (le_attrs e) = Some (VStr s) ->
+  parse_int (remove_prefix s hed_prefix) = Some 0%Z ->
+  tag_library_key fx e = Some k -> dict_get k (id_data I) = Some (lo, hi) -> (0 < lo)%Z ->
+  verify_tag_id fx I L e a = Ok ks -> In K_SCHEMA_HED_ID_INVALID ks.
+Proof. exact verify_tag_id_zero_reported. Qed.
+Print Assumptions C14_rule_hed_id_zero.
+
+(* the bounds in force, from the translated library_data.json: standard 10000..39999, score 40000..59999 *)
+Theorem C14_bundled_id_ranges :
+  dict_get [] Gen.C14_Env.id_ranges = Some (10000, 39999)%Z
+  /\ dict_get (s2str "score") Gen.C14_Env.id_ranges = Some (40000, 59999)%Z
+  /\ parse_int (remove_prefix (s2str "HED_0000000") hed_prefix) = Some 0%Z.
+Proof. exact bundled_id_ranges. Qed.
+Print Assumptions C14_bundled_id_ranges.
+
+(* a changed hedId (not seedable on any bundled schema: no previous version records ids) *)
+Theorem C14_seeded_hed_id_changed : forall E L I sec e s nid k Lp oe os oid,
+  checkable E L -> l_is83 L = true -> id_validator_init E L = Ok I ->
+  In e (section_values L sec) ->
+  dict_get HedKey_HedID (le_attrs e) = Some (VStr s) -> skip_attribute fixed_all e HedKey_HedID = false ->
+  parse_int (remove_prefix s hed_prefix) = Some nid ->
+  tag_library_key fixed_all e = Some k -> dict_get k (id_prev I) = Some Lp ->
   lookup Lp (le_sec e) (le_name e) = Some oe ->
   dict_get HedKey_HedID (le_attrs oe) = Some (VStr os) ->
   parse_int (remove_prefix os hed_prefix) = Some oid -> oid <> 0%Z -> oid <> nid ->
-  In (spec_code F_hed_id) (codes issues).
-Proof. exact seeded_hed_id_changed. Qed.
-Print Assumptions C14_seeded_hed_id_changed_partial.
+  exists issues, check_loaded fixed_all E true L = Ok issues
+                 /\ In (spec_code F_hed_id) (codes issues).
+Proof. exact seeded_hed_id_changed_full. Qed.
+Print Assumptions C14_seeded_hed_id_changed.
 
-(* The full statement is refuted by the faithful model (both witnesses replay on the implementation):
-   (1) 8.3.0 with the undeclared attribute defaultUnits on the node Event: the check raises;
-   (2) score_2.0.0 with hedId HED_9999999 on a nested library tag: nothing at all is reported. *)
+(* ================= clause 1: every eligible bundled schema passes with no error =================
+   kernel evaluation (VM) of the model of the code as it now is on the translated XML data, in the
+   environment of the package; [no_error] = no error-severity issue with warnings on AND an empty
+   result with warnings off.  One theorem, so that the data is traversed once. *)
+Theorem C14_bundled_schemas_compliant :
+  no_error env_8_0_0 Gen.Schema_8_0_0_c14.schema /\
+  no_error env_8_1_0 Gen.Schema_8_1_0_c14.schema /\
+  no_error env_8_2_0 Gen.Schema_8_2_0_c14.schema /\
+  no_error env_8_3_0 Gen.Schema_8_3_0_c14.schema /\
+  no_error env_score_1_1_0 Gen.Schema_score_1_1_0_c14.schema /\
+  no_error env_score_2_0_0 Gen.Schema_score_2_0_0_c14.schema /\
+  no_error env_testlib_2_0_0 Gen.Schema_testlib_2_0_0_c14.schema /\
+  no_error env_testlib_2_1_0 Gen.Schema_testlib_2_1_0_c14.schema /\
+  no_error env_testlib_3_0_0 Gen.Schema_testlib_3_0_0_c14.schema.
+Proof.
+  exact (conj compliant_8_0_0 (conj compliant_8_1_0 (conj compliant_8_2_0 (conj compliant_8_3_0
+        (conj compliant_score_1_1_0 (conj compliant_score_2_0_0 (conj compliant_testlib_2_0_0
+        (conj compliant_testlib_2_1_0 compliant_testlib_3_0_0)))))))).
+Qed.
+Print Assumptions C14_bundled_schemas_compliant.
+
+(* ================= non-vacuity and the old witnesses, on the code as it now is ================= *)
+Example C14_nonvacuous_seeded_8_3_0 :
+  res_codes (check_compliance fixed_all env_830 true seeded_in_library_830) = Ok [spec_code F_in_library]
+  /\ check_compliance fixed_all env_830 false seeded_in_library_830 = Ok []
+  /\ res_codes (check_compliance fixed_all env_830 false seeded_duplicate_830) = Ok [spec_code F_duplicate_node]
+  (* the witness of C14-F1: now reported, as an error, in both modes *)
+  /\ res_codes (check_compliance fixed_all env_830 true seeded_default_units_on_tag_830)
+     = Ok [spec_code F_undeclared_attribute]
+  /\ res_codes (check_compliance fixed_all env_830 false seeded_default_units_on_tag_830)
+     = Ok [spec_code F_undeclared_attribute].
+Proof.
+  exact (conj ex_seeded_in_library (conj ex_seeded_in_library_off (conj ex_seeded_duplicate
+        ex_undeclared_attribute_reported))).
+Qed.
+Print Assumptions C14_nonvacuous_seeded_8_3_0.
+
+(* the witness of C14-F2: the out-of-range hedId of a nested library tag is now reported *)
+Example C14_nested_library_hed_id_reported :
+  res_codes (check_compliance fixed_all env_score200 true seeded_hed_id_score_200) = Ok [spec_code F_hed_id].
+Proof. exact ex_hed_id_out_of_range_reported. Qed.
+Print Assumptions C14_nested_library_hed_id_reported.
+
+(* ================= THE RECORD OF THE REPAIRED DEFECTS (fixed_none = the code before the fix: commits) =========
+   For the unrepaired code the full statement was false; both witnesses replay on an unpatched tree
+   (VERIF_C14_FIXED=0).  For it only the `_partial` form held: for any fx, whenever the check does not
+   raise, the fault is reported (C14_seeded_fault_partial_* below). *)
 Theorem C14_seeded_fault_reported_refuted_raises :
-  check_compliance env_bundled true seeded_default_units_on_tag_830 = Exn AttributeError.
-Proof. exact ex_undeclared_attribute_raises. Qed.
+  has_tag s830 (s2str "Event") = true
+  /\ check_compliance fixed_none env_830 true seeded_default_units_on_tag_830 = Exn AttributeError.
+Proof. exact ex_undeclared_attribute_raised. Qed.
 Print Assumptions C14_seeded_fault_reported_refuted_raises.
 
 Theorem C14_seeded_fault_reported_refuted_hed_id :
-  existsb (fun r => str_eqb (re_name r) n_rpp) (rs_tags Gen.Schema_score_2_0_0_c14.schema) = true
-  /\ check_compliance env_bundled true seeded_hed_id_score_200 = Ok [].
+  has_tag Gen.Schema_score_2_0_0_c14.schema n_rpp = true
+  /\ check_compliance fixed_none env_score200 true seeded_hed_id_score_200 = Ok [].
 Proof. exact ex_hed_id_out_of_range_unreported. Qed.
 Print Assumptions C14_seeded_fault_reported_refuted_hed_id.
 
-(* ================= clause 1: every eligible bundled schema passes with no error =================
-   kernel evaluation of the model on the translated XML data (vm_compute), environment of the package *)
-Theorem C14_compliant_8_0_0 : no_error Gen.Schema_8_0_0_c14.schema.
-Proof. exact compliant_8_0_0. Qed.
-Print Assumptions C14_compliant_8_0_0.
-Theorem C14_compliant_8_1_0 : no_error Gen.Schema_8_1_0_c14.schema.
-Proof. exact compliant_8_1_0. Qed.
-Print Assumptions C14_compliant_8_1_0.
-Theorem C14_compliant_8_2_0 : no_error Gen.Schema_8_2_0_c14.schema.
-Proof. exact compliant_8_2_0. Qed.
-Print Assumptions C14_compliant_8_2_0.
-Theorem C14_compliant_8_3_0 : no_error Gen.Schema_8_3_0_c14.schema.
-Proof. exact compliant_8_3_0. Qed.
-Print Assumptions C14_compliant_8_3_0.
-Theorem C14_compliant_score_1_1_0 : no_error Gen.Schema_score_1_1_0_c14.schema.
-Proof. exact compliant_score_1_1_0. Qed.
-Print Assumptions C14_compliant_score_1_1_0.
-Theorem C14_compliant_score_2_0_0 : no_error Gen.Schema_score_2_0_0_c14.schema.
-Proof. exact compliant_score_2_0_0. Qed.
-Print Assumptions C14_compliant_score_2_0_0.
-Theorem C14_compliant_testlib_2_0_0 : no_error Gen.Schema_testlib_2_0_0_c14.schema.
-Proof. exact compliant_testlib_2_0_0. Qed.
-Print Assumptions C14_compliant_testlib_2_0_0.
-Theorem C14_compliant_testlib_2_1_0 : no_error Gen.Schema_testlib_2_1_0_c14.schema.
-Proof. exact compliant_testlib_2_1_0. Qed.
-Print Assumptions C14_compliant_testlib_2_1_0.
-Theorem C14_compliant_testlib_3_0_0 : no_error Gen.Schema_testlib_3_0_0_c14.schema.
-Proof. exact compliant_testlib_3_0_0. Qed.
-Print Assumptions C14_compliant_testlib_3_0_0.
+(* the partial form, for either version of the code: a finding of any rule that is run on a declared
+   attribute of a visited entry reaches the result whenever the check returns *)
+Theorem C14_seeded_fault_partial_any_rule : forall fx E L issues sec e a val v k,
+  check_loaded fx E true L = Ok issues ->
+  In e (section_values L sec) ->
+  dict_get a (le_attrs e) = Some val ->
+  skip_attribute fx e a = false ->
+  In v (get_validators L a) ->
+  (forall I ks, id_validator_init E L = Ok I -> run_validator fx E I L v e a = Ok ks -> In k ks) ->
+  In (mkIssue k SevWarning (Some (le_sec e)) (Some (le_name e)) (Some a)) issues.
+Proof. exact validator_issue_reported. Qed.
+Print Assumptions C14_seeded_fault_partial_any_rule.
 
-(* ================= non-vacuity: the hypotheses are met by concrete seeded bundled schemas ================= *)
-Example C14_nonvacuous_in_library :
-  exists issues, check_compliance env_bundled true seeded_in_library_830 = Ok issues
-                 /\ In (spec_code F_in_library) (codes issues)
-                 /\ check_compliance env_bundled false seeded_in_library_830 = Ok [].
-Proof. exact ex_seeded_in_library. Qed.
-Print Assumptions C14_nonvacuous_in_library.
+Theorem C14_seeded_fault_partial_undeclared : forall fx E warn L issues sec e a,
+  check_loaded fx E warn L = Ok issues ->
+  In e (section_values L sec) -> In a (le_unknown e) ->
+  In (spec_code F_undeclared_attribute) (codes (filter is_error issues)).
+Proof. exact seeded_undeclared. Qed.
+Print Assumptions C14_seeded_fault_partial_undeclared.
 
-Example C14_nonvacuous_duplicate :
-  exists issues, check_compliance env_bundled false seeded_duplicate_830 = Ok issues
-                 /\ In (spec_code F_duplicate_node) (codes issues).
-Proof. exact ex_seeded_duplicate. Qed.
-Print Assumptions C14_nonvacuous_duplicate.
+Theorem C14_seeded_fault_partial_duplicate : forall fx E warn L issues sec d name ents,
+  check_loaded fx E warn L = Ok issues ->
+  In (sec, d) (l_dups L) -> In (name, ents) d ->
+  (forall x y, In x ents -> In y ents -> snd x = snd y) ->
+  In (spec_code F_duplicate_node) (codes (filter is_error issues)).
+Proof. exact seeded_duplicate. Qed.
+Print Assumptions C14_seeded_fault_partial_duplicate.
